@@ -773,12 +773,28 @@ rt_prop("C06", ["cancel", "task"],
         "request cannot be resolved (dropped_request_unresolvable). Non-interference with siblings is stated "
         "(siblings_unaffected_goal), covered by the `cancel` profile of the correspondence.",
         goals=["siblings_unaffected_goal"])
+def _add_ext_stream():
+    def gen(tier, seed):
+        return [["gen", seed, 2000 if tier == "quick" else 60000, "ext"]]
+    PROPS["C07"]["streams"].append(Stream("ext", "rt", "rt-C07", gen, nontrivial=rt_nontrivial, shape=rt_shape,
+                                          shrink=sexp_shrinks, compare_model=False))
+    PROPS["C07"]["rule"] += ("; ext stream (no exact model): builder chains in which a stream stage follows a stream "
+                             "(StreamBuilder::then_stream = flatten_unordered, incl. follow-up streams that start with a request), alone "
+                             "and under then/all/map_event, histories ending with every request dropped; the oracle tracks from the "
+                             "implementation's own line which requests are still resolvable and demands is_done() once none is")
+
+
 rt_prop("C07", ["task", "cancel", "comb"],
         "Proof (Props/C07.lean): a task is evicted only if its poll was pending, its waker was not woken during the poll and no clone "
         "of it survives anywhere (evict_only_if_unreachable, held_task_never_discarded); done iff no task, no effect, no event "
         "(done_iff); a host sees end-of-stream exactly when the command is done (host_sees_done_exactly). Completeness of eviction is "
-        "stated (evict_complete_goal), checked per step by the correspondence on the modelled fragment (`d`, `t` counters).",
+        "stated (evict_complete_goal), checked per step by the correspondence on the modelled fragment (`d`, `t` counters). It is "
+        "FALSE on the real code outside that fragment: a task that retains a clone of its own waker (FuturesUnordered / "
+        "flatten_unordered behind StreamBuilder::then_stream on a stream) and then waits on a dropped one-shot request is never evicted "
+        "— known finding retaining-combinator-never-evicted, exhibited on every run by the ext stream (public builder API, oracle "
+        "clause evaluated on the implementation alone).",
         goals=["evict_complete_goal"])
+_add_ext_stream()
 rt_prop("C09", ["bridge", "hosts"],
         "Proof (Props/C09.lean): the bridge simulates the typed core step by step — event (bridge_simulates_core_event) and response "
         "(bridge_simulates_core_response): decoded requests = core effects in order, same core state; ids of a batch are pairwise "
